@@ -698,6 +698,11 @@ class Indic:
                 return a * b
             if op == "mul" and isinstance(a, int):
                 return b * a
+            # list <op> numpy-scalar broadcasts like an array
+            if isinstance(a, (list, tuple)) and isinstance(b, (int, float, D)):
+                return broadcast(op, NP.to_na(a), b)
+            if isinstance(b, (list, tuple)) and isinstance(a, (int, float, D)):
+                return broadcast(op, a, NP.to_na(b))
             raise Undecided("list arithmetic")
         if isinstance(a, str) or isinstance(b, str):
             if op == "add" and isinstance(a, str) and isinstance(b, str):
